@@ -1469,7 +1469,12 @@ static void c12_quiescent_check(const char *after)
     }
 }
 
-static const char *c12_forwarders[] = { "idem", "skip", "delay", "setattr", "setrap", "nodemux", "noclock", "probe_uref", "match_attr", "htons", "dup", "setflowdef" };
+static const char *c12_forwarders[] = { "idem", "skip", "delay", "setattr", "setrap", "nodemux", "noclock", "probe_uref", "match_attr", "htons", "dup", "setflowdef", "ts_align" };
+/* ts_align is a bin (helper_bin_input / helper_bin_output): every flow
+ * definition it is given replaces its inner pipe (ts_sync, ts_check or idem),
+ * the requests lodged on the bin must follow */
+static const char *c12_bin_defs[] = { "block.", "block.mpegts.", "block.mpegtsaligned." };
+static bool c12_is_bin[C12_MAXP + 1];
 
 static void c12_case(struct vh_rng *r)
 {
@@ -1488,9 +1493,16 @@ static void c12_case(struct vh_rng *r)
         struct upipe_mgr *mgr = d->mgr_alloc();
         c12_pipes[k] = upipe_void_alloc(mgr, lab_probe_new(nm, &c12_pipe_ids[k]));
         upipe_mgr_release(mgr);
+        c12_is_bin[k] = !strcmp(nm, "ts_align");
+        if (c12_is_bin[k]) {
+            struct uref *bfd = make_flow_def(c12_bin_defs[vh_below(R, 3)], 1);
+            if (!ubase_check(upipe_set_flow_def(c12_pipes[k], bfd))) vh_violation("c04:ts_align:rejected-own-flow-def", "rejected");
+            uref_free(bfd);
+        }
         strcat(names, nm); strcat(names, ">");
         vh_count_dyn("c12.pipe.%s", nm);
     }
+    c12_is_bin[c12_n] = false;
     c12_qsrc = NULL; c12_has_q = false; c12_cb_depth = 0;
     int burst_mode = (int)vh_arg_int("burst", 1);   /* 0 never, 1 sometimes, 2 every case ends with a queue and bursts often */
     if (c12_n < C12_MAXP + 1 && (burst_mode == 2 || vh_chance(R, 1, 3))) {
@@ -1602,10 +1614,21 @@ static void c12_case(struct vh_rng *r)
                 if (C12R[q].registered && c12_out[end] == sidx && C12R[q].provided == before[q])
                     vh_violation("c12:answer-not-delivered", "sink %d provided request r%d (%s) but the original requester's callback was not invoked", sidx, q, urequest_type_str(C12R[q].type));
                 else if (C12R[q].registered && c12_out[end] == sidx) VH_COUNT("c12.answered");
-        } else if (c < 92) {
+        } else if (c < 90) {
             int sidx = vh_below(R, 3), m = vh_below(R, 3);
             OP("sink%d.request_mode=%d", sidx, m);
             lab_sink_set_request_mode(c12_sinks[sidx], m);
+        } else if (c < 96) {
+            /* the inner pipe of a bin is replaced: withdrawn from the old one, re-issued to the new one */
+            int k = vh_below(R, c12_n);
+            if (!c12_is_bin[k]) continue;
+            int v = vh_below(R, 3);
+            OP("bin_set_flow_def(p%d,%s)", k, c12_bin_defs[v]);
+            for (int q = 0; q < C12_MAXR; q++) C12R[q].probe_lodged = false;
+            struct uref *bfd = make_flow_def(c12_bin_defs[v], 1);
+            if (!ubase_check(upipe_set_flow_def(c12_pipes[k], bfd))) vh_violation("c04:ts_align:rejected-own-flow-def", "rejected");
+            uref_free(bfd);
+            VH_COUNT("c12.bin_inner_replaced");
         } else {
             /* answers arriving after unregistration must not reach the requester */
             for (int sidx = 0; sidx < 3; sidx++) lab_sink_provide_all(c12_sinks[sidx]);
